@@ -765,12 +765,22 @@ def tr_patch(src, tree, parts):
     need(a and is_call(a[1], "RawMeshData", 0), BEZ, b[0], "out = RawMeshData() expected")
     outv = a[0]
     zenv = {"n1": "n1", "n2": "n2"}
-    a = assign1(b[1])
-    la = linspace_of(a[1], BEZ)
-    U, ulo, uhi, ulen = a[0], fexpr(la[0], {}, BEZ), fexpr(la[1], {}, BEZ), zexpr(la[2], zenv, BEZ)
-    a = assign1(b[2])
-    la = linspace_of(a[1], BEZ)
-    V, vlo, vhi, vlen = a[0], fexpr(la[0], {}, BEZ), fexpr(la[1], {}, BEZ), zexpr(la[2], zenv, BEZ)
+    lins = {}
+    for st in b[1:3]:
+        a = assign1(st)
+        need(a is not None and a[0] not in lins, BEZ, st, "parameter array assignment expected")
+        la = linspace_of(a[1], BEZ)
+        lins[a[0]] = (fexpr(la[0], {}, BEZ), fexpr(la[1], {}, BEZ), zexpr(la[2], zenv, BEZ))
+    # which array parametrises the rows (first argument of evaluate) is decided by its use in the vertex loop
+    st5 = b[5]
+    need(isinstance(st5, ast.For) and len(st5.body) == 2 and assign1(st5.body[0]) is not None
+         and is_call(assign1(st5.body[0])[1], "self._evaluate_row", 1)
+         and isinstance(assign1(st5.body[0])[1].args[0], ast.Subscript), BEZ, st5, "vertex loop not recognised")
+    U = T.dotted(assign1(st5.body[0])[1].args[0].value)
+    need(U in lins and len(lins) == 2, BEZ, st5, "row parameter array is not one of the two linspace arrays")
+    V = [k for k in lins if k != U][0]
+    ulo, uhi, ulen = lins[U]
+    vlo, vhi, vlen = lins[V]
     need((ulo, uhi) == (vlo, vhi), BEZ, b[2], "U and V have different end points")
     a = assign1(b[3])
     need(a and is_call(a[1], outv + ".vertices.create_attribute", 3) and const_is(a[1].args[0], "uv_coords"), BEZ, b[3],
